@@ -72,6 +72,14 @@ def allocLine (st : AllocSt) (ln : Nat) (line : String) (r : Report) : AllocSt Ã
         -- property monitors on the implementation
         let r := if !okImpl st.a.lowest st.a.highest ivs then
             r.viol s!"C20 repr@{opw}" s!"{st.name} line {ln}: `{opS}` leaves pool {ivS} (not sorted/disjoint/merged/in range)" else r
+        -- the answer against the set of free integers the implementation's own pool denoted before
+        -- the call (any range size): reserve succeeds exactly for free values, a value is used
+        -- exactly when it is in range and not free, allocate hands out the smallest free value
+        let expect : Option String := (Alloc.poolAnswer st.a op).map showAns
+        let r := match expect with
+          | some e => if e â‰  ansS âˆ§ !st.useSpec then
+              r.viol s!"C20 answer_vs_pool@{opw}" s!"{st.name} line {ln}: `{opS}` answered {ansS}; the pool before the call was {showIvs st.a.pool} over [{st.a.lowest}, {st.a.highest}], so a set of free integers answers {e}" else r
+          | none => r
         let (s', r) :=
           if st.useSpec then
             let (s', sans) := st.s.step op
